@@ -21,7 +21,7 @@ import time
 HERE = os.path.dirname(os.path.abspath(__file__))
 sys.path.insert(0, os.path.dirname(HERE))
 
-from sim import c12, c13, minimise, proc, runner, workload  # noqa: E402
+from sim import c12, c13, minimise, proc, runner, sweep, workload  # noqa: E402
 from sim.common import (  # noqa: E402
     ENGINE_VERSION,
     EXIT_HARNESS,
@@ -36,8 +36,8 @@ from sim.common import (  # noqa: E402
 )
 
 TIERS = {
-    "quick": {"budget_s": 40, "max_runs": 200000, "det_samples": 24, "line_fraction": 0.4, "long_fraction": 0.0},
-    "thorough": {"budget_s": 600, "max_runs": 5000000, "det_samples": 200, "line_fraction": 0.4, "long_fraction": 0.03},
+    "quick": {"budget_s": 40, "max_runs": 200000, "det_samples": 24, "line_fraction": 0.4, "long_fraction": 0.0, "n_sweep": {"C12": 1200, "C13": 1600}},
+    "thorough": {"budget_s": 600, "max_runs": 5000000, "det_samples": 200, "line_fraction": 0.4, "long_fraction": 0.03, "n_sweep": {"C12": 10 ** 9, "C13": 10 ** 9}},
 }
 
 
@@ -51,6 +51,7 @@ def build_cfg(repo, tier):
         "line_fraction": t["line_fraction"],
         "long_fraction": t["long_fraction"],
         "n_samples": 3,
+        "n_sweep": t["n_sweep"],
         "run_timeout": 120 if tier == "quick" else 600,
     }
     if tier == "thorough":
@@ -115,6 +116,7 @@ class Agg:
         self.harness_errors = []
         self.digests = {}
         self.faulty_runs = 0
+        self.sweep_runs = 0
         self.wall_sum = 0.0
 
     def add(self, s):
@@ -130,6 +132,7 @@ class Agg:
         self.tokens += s["tokens"]
         self.wall_sum += s["wall"]
         self.faulty_runs += 1 if s.get("faulty") else 0
+        self.sweep_runs += 1 if s.get("sweep") else 0
         for k, v in s["probes"].items():
             self.probes[k] = self.probes.get(k, 0) + v
         for k, v in s["fired"].items():
@@ -180,6 +183,7 @@ def write_evidence(prop, tier, seed, agg, wall, det, extra_assumptions=()):
         "runs_per_hour": int(runs_per_hour),
         "seeds": {"VERIF_SEED": seed, "runs": "run i uses PRNG H('run', property, VERIF_SEED, i), i = 0..%d" % max(0, agg.runs - 1)},
         "faults_fired": dict(sorted(agg.fired.items())),
+        "systematic_sweep": {"cases_total": sweep.n_cases(prop), "cases_run": agg.sweep_runs, "what": "enumerated fault points (C12: truncation / seam-abort / abandoned lexer at every token boundary of every construct snippet, line-abort ladder) or pre-emption points (C13: A runs k steps, B runs to completion, A finishes, for every k; generator / visitor pairs at line granularity with stride 9); a quick run covers a seed-dependent slice, a thorough run all of them"},
         "fault_injecting_runs": agg.faulty_runs,
         "fault_free_runs": agg.runs - agg.faulty_runs,
         "probes": dict(sorted(agg.probes.items())),
